@@ -245,8 +245,9 @@ func (check typecheck) comparison(n *node) error {
 
 	ok := false
 
-	if !isInterface(t0) && !isInterface(t1) && !t0.isNil() && !t1.isNil() && t0.untyped == t1.untyped && t0.id() != t1.id() && !typeDefined(t0, t1) {
-		// Non interface types must be really equals.
+	if !isInterface(t0) && !isInterface(t1) && !t0.isNil() && !t1.isNil() && t0.untyped == t1.untyped && t0.id() != t1.id() && !typeDefined(t0, t1) && !(isChan(t0) && isChan(t1) && (t0.name == "" || t1.name == "")) {
+		// Non interface types must be really equals, except a bidirectional channel and a directional
+		// one, assignable to each other when one of the types is not a defined type.
 		return n.cfgErrorf("invalid operation: mismatched types %s and %s", t0.id(), t1.id())
 	}
 
